@@ -331,6 +331,8 @@ def judge(case, io, mo):
                     expected=mo, what='processIfContent leaves %s, TeX selects %s' % (io, mo))
     cs = ML.counters_used(case['prog'])
     exp = ML.expected_from_model(mo, cs)
+    if exp == [-3]:
+        return None     # the reference evaluator gave up (fuel / size guard): the case is not compared (tagged in the evidence)
     if not (isinstance(exp, list) and exp and exp[0] == 0):
         return dict(violation=False, key='C03:generator', expected=exp, what='the reference evaluator rejects this program (generator defect)')
     if io == exp:
